@@ -410,7 +410,7 @@ Inductive errk := ENotString | ENotFound | EBadType.
 
 (* what database/sql may hand to Scan *)
 Inductive sqlv := SNil | SBytes (s : string) | SStr (s : string) | SInt (z : Z) | SBool (b : bool)
-                | SFloat (z : Z).
+                | SFloat (z : Z) | STime (unix : Z).
 
 (* -gorm *)
 Definition gorm_data_type : string := "string".
@@ -475,8 +475,10 @@ Section Generated.
     | (_, Some _) => (false, tgt)
     end.
 
-  (* IsEnum[T, TV](value): the loop over Values() comparing with T(value) *)
-  Definition is_enum (v : Z) : bool := existsb (fun d => d =? wrap (g_kind g) v) t_values.
+  (* IsEnum[T, TV](value): x := T(value); a value that is not representable in T (TV(x) != value or
+     the sign flipped, i.e. wrap v <> v) is no enum value; otherwise the loop over Values() *)
+  Definition is_enum (v : Z) : bool :=
+    (wrap (g_kind g) v =? v) && existsb (fun d => d =? wrap (g_kind g) v) t_values.
 
   (* ---- codecs; each unmarshaller returns (error, target afterwards) ---- *)
   Section Json.
@@ -503,9 +505,10 @@ Section Generated.
     end.
 
   Definition sql_value (x : Z) : sqlv := SStr (str_of x).       (* Value() *)
+  (* Scan accepts the name as []byte or as a Go string (what Value() produces) *)
   Definition scan (v : sqlv) (tgt : Z) : option errk * Z :=
     match v with
-    | SBytes s =>
+    | SBytes s | SStr s =>
         match parse_enum s with
         | (x, None) => (None, x)
         | (_, Some e) => (Some e, tgt)
@@ -535,7 +538,10 @@ End Generated.
 Definition wf_pkg (p : pkg) : bool :=
   forallb ce_ok (const_env p)
   && nodup_s (map ce_name (named_entries (const_env p)))
-  && nodup_s (map fst (p_types p)).
+  && nodup_s (map fst (p_types p))
+  (* one package scope: no constant is named like a type, none has the empty name *)
+  && forallb (fun e => negb (String.eqb (ce_name e) "") && negb (mem_s (ce_name e) (map fst (p_types p))))
+             (const_env p).
 
 Fixpoint block_shape_ok (first : bool) (b : cblock) : bool :=
   match b with
@@ -565,9 +571,10 @@ Definition shape_ok (p : pkg) : bool :=
   forallb (fun b => block_shape_ok true b && carried_len_ok 0 b) (all_blocks p).
 
 (* guard of the refinement collect = declared *)
-(* no spec without a type whose expression is typed (`AB = A | B`): K_enum_implicit_type *)
-Definition no_implicit (p : pkg) : bool :=
-  forallb (fun e => negb (ce_implicit e)) (const_env p).
+(* K_enum_implicit_type: no spec without a type whose expression is of type T (`AB = A | B` with
+   A, B of type T).  Implicitly typed constants of OTHER types do not matter for T. *)
+Definition no_implicit (p : pkg) (T : string) : bool :=
+  forallb (fun e => negb (ce_implicit e && ctype_is T (ce_type e))) (const_env p).
 
 (* ------------------------------------------------ -bit grammar (C14) ------- *)
 
